@@ -133,7 +133,7 @@ func (p c05) Run(c *core.Ctx) {
 		return
 	}
 	problems, stats := checkLifecycle(r, npp)
-	problems = append(problems, checkLifePPs(r, lifePPs)...)
+	problems = append(problems, checkLifePPs(r, lifePPs, npp)...)
 	c.Count("post_processor_dependencies", len(lifePPs))
 	c.Count("lifecycle_events", stats.events)
 	c.Count("components_checked", stats.components)
@@ -371,7 +371,11 @@ func isZeroSnap(s string) bool {
 
 // checkLifePPs: a post-processor that is a dependency of a created component went through its own
 // lifecycle exactly once, before the component that holds it was initialised.
-func checkLifePPs(r *world.Run, names []string) []string {
+func checkLifePPs(r *world.Run, names []string, nppOpt ...int) []string {
+	npp := 0
+	if len(nppOpt) > 0 {
+		npp = nppOpt[0]
+	}
 	var out []string
 	if len(names) == 0 {
 		return nil
@@ -405,6 +409,19 @@ func checkLifePPs(r *world.Run, names []string) []string {
 					nm = p.Nm
 				default:
 					continue
+				}
+				if _, lazy := ref.Obj.(*world.LazyLifePP); lazy {
+					// a lazy post-processor component is created when its first holder is populated - during the
+					// refresh, under the complete chain: it passes the other processors' callbacks like any component
+					for _, k := range []string{"before", "after", "pp-before", "pp-after"} {
+						want := 1
+						if strings.HasPrefix(k, "pp-") {
+							want = npp
+						}
+						if got, _ := count(k, nm); got != want {
+							out = append(out, fmt.Sprintf("lazy post-processor component %q (held by %q): %d %q callback event(s) of the other post-processors, expected %d", nm, nd.DisplayName(), got, k, want))
+						}
+					}
 				}
 				nInit, fInit := count("init", nm)
 				nAps, _ := count("aps", nm)
@@ -576,9 +593,16 @@ func (p c05) mixin(c *core.Ctx) {
 	// a post-processor component with the same points and an Init of its own (ordered behind the built-in
 	// processors, so they are all active when it is created)
 	ipp := &world.InitPP{Ord: []int{100, 50, 9}[c.Rng.Intn(3)]}
-	r := world.Start(g.Sc, world.Options{Extra: []any{h, ipp}})
+	eh := &world.EmbedIfaceHolder{}
+	r := world.Start(g.Sc, world.Options{Extra: []any{h, ipp, eh}})
 	c.Count("starts", 1)
 	c.Count("mixin_starts", 1)
+	if r.Outcome() == "ok" {
+		if want := `dep-set=true dep-initialised=true`; eh.Inits != 1 || eh.SeenAtInit != want {
+			c.Fail("", fmt.Sprintf("component taking its dependency through a tagged embedded interface: Init ran %d time(s) and saw %s; expected once with %s", eh.Inits, eh.SeenAtInit, want), failDetail(g.Sc, r, map[string]any{"events": renderEvents(r.Log.Events(), 60)}))
+			return
+		}
+	}
 	if r.Outcome() == "ok" {
 		if want := `dep-set=true dep-initialised=true cfg="v"`; ipp.Inits != 1 || ipp.SeenAtInit != want {
 			c.Fail("", fmt.Sprintf("post-processor component with injection points: Init ran %d time(s) and saw %s; expected once with %s", ipp.Inits, ipp.SeenAtInit, want), failDetail(g.Sc, r, map[string]any{"events": renderEvents(r.Log.Events(), 60)}))
